@@ -19,7 +19,7 @@ position as column). A track reply is `<pts> <table>`.
   pattern <pts> <names> <pattern 0/1 string or _> → track | err:zerodiv
   gt <pts> <names> <n> ,  lt <pts> <names> <n>     → track
   radix <digits of obs 0>;<digits of obs 1>;…      → the positions in their new order | err:index
-        (six digits per observation, least significant first: sec*1000+ms, min, hour, day-1, month-1, year-1970)
+        (six digits per observation, least significant first: sec*1000+ms, min, hour, day-1, month-1, year)
   session <tracks> <ops>                           → one `out|k|pts|table|reads` per operation, `;`-separated
         tracks: `;`-separated `T<pts>`; ops: `;`-separated, fields separated by `/` (see `op?`);
         k = position in the pool of the track created / modified (`-` = none), followed by that track and, for
@@ -147,7 +147,7 @@ def handle (cmd : String) (args : List String) : String :=
   | "radix", [ds] =>
     match intListList? ds with
     | some D =>
-      if D.all (fun d => d.length == radixBuckets.length) then
+      if D.all (fun d => d.length == radixBuckets.length + 1) then
         match sortRadixIds (fun i => D.getD i []) D.length with
         | some ids => showList toString ids
         | none => "err:index"
